@@ -118,7 +118,12 @@ def stepM (c : Conv) (s : MState) : MEvent → MState × List MOut
   | .tick => attempt s
   | .set v n =>
     match s.call with
-    | some _ => (s, [])     -- a second concurrent call on the same parameter is outside the model
+    | some _ =>
+      -- a second call while one is in flight: a call that is refused, a no-op or a conversion error returns at
+      -- once and touches nothing; an ACCEPTED overlapping call is outside this machine (C08's multi-call machine)
+      match decide c s.held v with
+      | .transmit _ => (s, [])
+      | o => (s, [.decided o])
     | none =>
       match decide c s.held v with
       | .transmit r =>
